@@ -3,7 +3,7 @@
    a handle dropped and re-created, a recycled partially filled page, a deleted slot reused
    with a generation bump. *)
 From Salsa Require Import Base.
-From Salsa.Alloc Require Import PageK Model.
+From Salsa.Alloc Require Import Model.
 From Salsa.Alloc Require Export Proofs.
 
 Lemma C24_distinct_lemma :
